@@ -1,7 +1,7 @@
 """C03 — see DESIGN.md section 5."""
 from props import boardprop
 
-FIELDS = ("make.digest","move-accepted","spec.apply","spec.flags","spec.wf","state.turn","state.fullmove","state.ep","state.history","state.position_history")
+FIELDS = ("make.digest","move-accepted","spec.apply","spec.flags","spec.wf","state.turn","state.fullmove","state.ep","state.history","state.rights_clock","state.position_history")
 PREFIXES = ("state.bb",)
 HAS_PROOFS = True
 
